@@ -10,8 +10,71 @@ let fmt_chunks cs =
   if cs = [] then "_" else
   String.concat "," (List.map (fun (a, b) -> dec_of_n a ^ ":" ^ dec_of_n b) cs)
 
+(* ---- CSI / tabix layouts: parsing of case arguments and printing of indexes (no computation) ---- *)
+let opt s f = if s = "-" then None else Some (f s)
+let parse_list sep s f = if s = "_" then [] else List.map f (split_on sep s)
+let fmt_list sep l f = if l = [] then "_" else String.concat sep (List.map f l)
+let fmt_opt o f = match o with None -> "-" | Some x -> f x
+let parse_name s = if s = "." then [] else bytes_of_hex s
+let fmt_name nm = if nm = [] then "." else hex_of_bytes nm
+
+let parse_hdr s = opt s (fun s -> match split_on ':' s with
+  | [f; sq; bg; en; mt; sk; nm] ->
+      { h_format = (match f with "g" -> FGeneric false | "b" -> FGeneric true | "s" -> FSam | "v" -> FVcf
+                    | _ -> failwith "fmt");
+        h_seq = n_of_dec sq; h_beg = n_of_dec bg; h_end = opt en n_of_dec; h_meta = n_of_dec mt;
+        h_skip = n_of_dec sk; h_names = parse_list ',' nm parse_name }
+  | _ -> failwith "hdr")
+
+let fmt_hdr ho = fmt_opt ho (fun h -> String.concat ":" [
+  (match h.h_format with FGeneric false -> "g" | FGeneric true -> "b" | FSam -> "s" | FVcf -> "v");
+  dec_of_n h.h_seq; dec_of_n h.h_beg; fmt_opt h.h_end dec_of_n; dec_of_n h.h_meta; dec_of_n h.h_skip;
+  fmt_list "," h.h_names fmt_name ])
+
+let parse_meta s = opt s (fun m -> match split_on ':' m with
+  | [a; b; c; d] -> { m_beg = n_of_dec a; m_end = n_of_dec b; m_mapped = n_of_dec c; m_unmapped = n_of_dec d }
+  | _ -> failwith "meta")
+let fmt_meta mo = fmt_opt mo (fun m ->
+  String.concat ":" [dec_of_n m.m_beg; dec_of_n m.m_end; dec_of_n m.m_mapped; dec_of_n m.m_unmapped])
+
+let parse_bins s = parse_list ';' s (fun b -> match split_on '=' b with
+  | [id; cs] -> (n_of_dec id, parse_chunks cs) | _ -> failwith "bin")
+let fmt_bins bs = fmt_list ";" bs (fun (id, cs) -> dec_of_n id ^ "=" ^ fmt_chunks cs)
+
+let parse_cref s = match split_on '|' s with
+  | [b; l; m] -> { cr_bins = parse_bins b; cr_loffs = parse_chunks l; cr_meta = parse_meta m }
+  | _ -> failwith "cref"
+let fmt_cref r = String.concat "|" [fmt_bins r.cr_bins; fmt_chunks r.cr_loffs; fmt_meta r.cr_meta]
+
+let parse_tref s = match split_on '|' s with
+  | [b; m; iv] -> { br_bins = parse_bins b; br_meta = parse_meta m; br_intervals = parse_list ',' iv n_of_dec }
+  | _ -> failwith "tref"
+let fmt_tref r = String.concat "|" [fmt_bins r.br_bins; fmt_meta r.br_meta; fmt_list "," r.br_intervals dec_of_n]
+
+let fmt_csi io = match io with
+  | None -> "Err"
+  | Some i -> String.concat " " [dec_of_n i.ci_ms; string_of_int (int_of_nat i.ci_depth); fmt_hdr i.ci_header;
+                                 fmt_list "/" i.ci_refs fmt_cref; fmt_opt i.ci_unplaced dec_of_n]
+let fmt_tbi io = match io with
+  | None -> "Err"
+  | Some i -> String.concat " " [fmt_hdr i.ti_header; fmt_list "/" i.ti_refs fmt_tref; fmt_opt i.ti_unplaced dec_of_n]
+
+let fmt_wres r reread = match r with
+  | WPanic -> "Panic"
+  | WErr -> "Err:InvalidInput"
+  | WOk bs -> hex_of_bytes bs ^ " " ^ reread bs
+
 let handle kind a =
   match kind with
+  | "csiw" ->
+      let i = { ci_ms = n_of_dec a.(0); ci_depth = nat_of_int (int_of_string a.(1)); ci_header = parse_hdr a.(2);
+                ci_refs = parse_list '/' a.(3) parse_cref; ci_unplaced = opt a.(4) n_of_dec } in
+      Some (fmt_wres (w_csi i) (fun bs -> fmt_csi (read_csi bs)))
+  | "csir" -> Some (fmt_csi (read_csi (bytes_of_hex a.(0))))
+  | "tbiw" ->
+      let i = { ti_header = parse_hdr a.(0); ti_refs = parse_list '/' a.(1) parse_tref; ti_unplaced = opt a.(2) n_of_dec } in
+      Some (fmt_wres (w_tbi i) (fun bs -> fmt_tbi (read_tbi bs)))
+  | "tbir" -> Some (fmt_tbi (read_tbi (bytes_of_hex a.(0))))
   | "r2b" ->
       let ms = n_of_int (int_of_string a.(0)) and d = nat_of_int (int_of_string a.(1)) in
       Some (dec_of_n (reg2bin ms d (n_of_dec a.(2)) (n_of_dec a.(3))))
